@@ -41,6 +41,7 @@ def run(idx: Index, rep: Report, tier: str):
     check_backend_init(idx, rep)
     check_cirq_channel_block(idx, rep)
     check_forwarding(idx, rep)
+    check_backend_init_forwarding(idx, rep)
     if tier == "thorough":
         check_other_translators(idx, rep)
 
@@ -52,13 +53,17 @@ def check_add_quantum_error(idx: Index, rep: Report):
     sup = mod.assigned.get("SUPPORTED_NOISE_MODELS")
     if sup is None:
         raise AnalysisError("SUPPORTED_NOISE_MODELS not found")
-    supported = frozenset(ast.literal_eval(sup))
+    from ..rules import circuitsem as _cs
+    try:
+        supported = frozenset(_cs.module_resolver(idx, NOISE)("SUPPORTED_NOISE_MODELS"))
+    except TypeError:
+        raise AnalysisError("SUPPORTED_NOISE_MODELS is not a foldable constant")
     rep.decide(supported == {"depol", "pauli"}, rule, (NOISE, "SUPPORTED_NOISE_MODELS"), sup, text=f"supported kinds {sorted(supported)}",
                what="the supported channel kinds are pauli and depol", reason=f"supported = {sorted(supported)}")
 
     def run_one(existing, gate, ntype, params):
         me = Rec("NoiseModel", {"_quantum_errors": {k: list(v) for k, v in existing.items()}})
-        fo = Folder(env={"SUPPORTED_NOISE_MODELS": supported})
+        fo = _cs.make_folder(idx, NOISE)
         try:
             fo.run_function(f.node, {"self": me, "abs_gate": gate, "noise_type": ntype, "noise_params": params})
         except Raised as r:
@@ -373,3 +378,35 @@ def check_other_translators(idx: Index, rep: Report):
                      reason="channels are applied to the first target and first control only (backend not installed: outside the decided quantifier)")
         else:
             rep.info(rule, f, blk, text=f"{fn}: channel block present", reason="applies channels over targets and controls")
+
+
+# ---------------------------------------------------------------------------------------------------
+def check_backend_init_forwarding(idx: Index, rep: Report):
+    """Backend.__init__ is where an unsupported or misplaced noise model is refused and where it is stored for the translators.  Every backend
+    class hands its own n_shots and noise_model on to it; a class that drops the noise model accepts it silently and simulates without noise."""
+    rule = "K7.noise-forwarding"
+    base = idx.cls("tangelo/linq/target/backend.py::Backend")
+    binit = base.methods["__init__"]
+    bparams = [p for p in binit.params if p != "self"]
+    n = 0
+    for c in sorted(idx.subclasses(base), key=lambda k: k.name):
+        init = c.methods.get("__init__")
+        if init is None or "noise_model" not in init.params:
+            continue
+        calls = [x for x in ast.walk(init.node) if isinstance(x, ast.Call) and norm(x.func) in ("super().__init__", f"Backend.__init__", "super(%s, self).__init__" % c.name)]
+        if len(calls) != 1:
+            raise AnalysisError(f"{c.name}.__init__: call of the base constructor not found")
+        call = calls[0]
+        bound = {}
+        pos = [a for a in call.args if not (norm(call.func).startswith("Backend") and norm(a) == "self")]
+        for pname, a in zip(bparams, pos):
+            bound[pname] = norm(a)
+        for k in call.keywords:
+            bound[k.arg] = norm(k.value)
+        for pname in ("n_shots", "noise_model"):
+            n += 1
+            rep.decide(bound.get(pname) == pname, rule, init, call, text=f"{c.name}: base constructor receives {pname}",
+                       what="every backend hands its n_shots and noise_model to the base constructor, which validates and stores them",
+                       reason=f"{c.name}.__init__ calls `{norm(call)}`: {pname} is {'passed as ' + bound[pname] if pname in bound else 'not passed'} - "
+                              f"the base class then neither refuses an unsupported noise model nor stores it for the translation")
+    rep.floor("backend constructors forwarding to the base class", n, 10)
